@@ -55,6 +55,11 @@ func (self *Core) runInstruction(instruction compiler.Instruction) *value.VmInte
 		self.push(i.Value.Clone())
 	case compiler.Opcode_Drop:
 		self.pop()
+	case compiler.Opcode_Load:
+		// The operand gets a storage cell of its own: a later assignment to the element / field does not change it.
+		// Lists and objects still share their contents.
+		cell := *self.pop()
+		self.push(&cell)
 	case compiler.Opcode_Duplicate:
 		// TODO: analyze where this instruction is generated and if it could break stuff
 		// TODO: does this break? when copying the pointer?
